@@ -61,13 +61,14 @@ def main(tier: str) -> int:
         except AttributeError as ex:
             run.model_drift(f'state projection of Decoder unavailable ({ex}): reader state-graph comparison skipped')
             break
-        st = rg.walk(u, edges, faults_at,
-                     on_violation=lambda clause, what, rp, u=u: (run.violation({"clause": clause, "binding": "reader-state-graph", "universe": u,
-                                                                                "class": rp.get("class", "")}, what, rp)
-                                                                 if clause == "invalid-row-accepted" else None),
-                     on_drift=lambda w: None)
-        graph_stats[u] = dict(st, tlc_states=gr.distinct)
-        graph_faults += st["fault_rows_replayed"]
+        for integ_ in ("generic", "rdflib"):
+            st = rg.walk(u, edges, faults_at, integ=integ_,
+                         on_violation=lambda clause, what, rp, u=u, integ_=integ_: (run.violation(
+                             {"clause": clause, "binding": "reader-state-graph", "universe": u, "integ": integ_, "class": rp.get("class", "")}, what, rp)
+                             if clause == "invalid-row-accepted" else None),
+                         on_drift=lambda w: None)
+            graph_stats[u + ("" if integ_ == "generic" else "/rdflib")] = dict(st, tlc_states=gr.distinct)
+            graph_faults += st["fault_rows_replayed"]
     taken: dict = {}
     evaluations = 0
     distinct = set()
